@@ -18,6 +18,7 @@ use super::parser::Parser;
 use crate::config::DocumentConfig;
 use crate::config::TestCaseConfig;
 use crate::expectation::ExpectationMaker;
+use crate::formatln;
 use crate::parsers::line_parser::LineParser;
 use crate::testcase::TestCase;
 
@@ -87,7 +88,9 @@ impl Parser for MarkdownParser {
         for token in iterator {
             match token {
                 MarkdownToken::DocumentConfig(config_lines) => {
-                    let parsed_config = serde_yaml::from_str(&config_lines.join_newline())
+                    // every front-matter line ends in a newline, the last one included (it
+                    // matters for a block scalar that keeps its trailing line breaks)
+                    let parsed_config = serde_yaml::from_str(&formatln!(config_lines.join_newline()))
                         .with_context(|| {
                             format!(
                                 "parse document config from front-matter:\n{:?}",
